@@ -107,7 +107,21 @@ theorem blank_lines_invisible (ls : List Line) :
 /-- on `LayoutOK` scripts comment-only lines are invisible too -/
 theorem comment_lines_invisible (ls : List Line) (h : LayoutOK ls = true) :
     reduinoBlocks (pyLines ls) = reduinoBlocks ls := by
-  sorry
+  have hn : ∀ xs, nextCode xs = nextCodeL xs := by
+    intro xs
+    induction xs with
+    | nil => rfl
+    | cons l rest ih => simp only [nextCode, nextCodeL, ih]
+  have hl : ∀ xs, LayoutOK xs = layoutOKL xs := by
+    intro xs
+    induction xs with
+    | nil => rfl
+    | cons l rest ih => simp only [LayoutOK, layoutOKL, hn, ih]; rfl
+  rw [hl] at h
+  have hlen := pyLines_length ls
+  unfold reduinoBlocks
+  rw [(fuel_indep _ (ls.length + 1) (pyLines ls) (Nat.lt_succ_self _) (by omega)).1]
+  exact (nested_pyLines _ ls h (Nat.lt_succ_self _)).1
 
 /-- scaling every indentation by `k ≥ 1` (indent unit) changes nothing -/
 theorem indent_scaling_invisible (ls : List Line) (k : Nat) (hk : 1 ≤ k) :
